@@ -65,8 +65,13 @@ def _work(args):
         mc["prog"]["initVars"] = L.init_vars(mc["prog"])
     method = rng.choice(SERIAL + BYLINE)
     all_agree = rng.random() < 0.4
+    # collect_when_not_matched=True (line-major methods): every member returns the lines it does NOT match, as return-mode: no-matches does
+    cwnm = method in BYLINE and rng.random() < 0.25
+    if cwnm:
+        for mc in grp["members"]:
+            mc["cfg"] = dict(mc["cfg"], noMatches=False)      # the parameter decides; no return-mode comment on the member
     texts = [grouprun.member_text(mc, ident=f"m{i}") for i, mc in enumerate(grp["members"])]
-    info = {"texts": texts, "records": grp["records"], "method": method, "if_all_agree": all_agree, "signals": nsig}
+    info = {"texts": texts, "records": grp["records"], "method": method, "if_all_agree": all_agree, "collect_when_not_matched": cwnm, "signals": nsig}
     rec = grouprun.Recorder()
     raised = None
     got = None
@@ -75,7 +80,7 @@ def _work(args):
         try:
             rec.install()
             try:
-                kw = {"if_all_agree": all_agree} if method in BYLINE else {}
+                kw = {"if_all_agree": all_agree, "collect_when_not_matched": cwnm} if method in BYLINE else {}
                 got = pharness.run_method(cp, method, "g", "data", **kw)
             except Exception as e:
                 import traceback
@@ -99,6 +104,7 @@ def _work(args):
             cfg = dict(mc["cfg"])
             cfg["collecting"] = method in ("collect_paths", "collect_by_line", "next_paths", "next_by_line")
             cfg["nexts"] = 0
+            cfg["noMatches"] = bool(cfg["noMatches"] or cwnm)
             cfg.setdefault("noDefaultPrint", False)
             members.append({"prog": runtrace.strip_private(mc["prog"]), "cfg": cfg})
         fin = []
